@@ -7,6 +7,7 @@ and the functions that read them:
   such a class attribute) — `postedNames` resolves the references along the base classes the way
   Python does, so an inherited `self.postNotification(self.changeNotificationName)` counts for the
   subclass under the subclass's own value of the attribute;
+* per `self.postNotification(...)` statement: the data keys it hands over (`sites`);
 * per method that posts, holds or releases: its statement-order *skeleton* — the posts (with where
   their old/new payload comes from), hold / release, loops and state changes, in source order.
 
@@ -54,9 +55,19 @@ structure MethodSkel where
   evs : List SkEv
 deriving Repr, Inhabited
 
+/-- one `self.postNotification(...)` statement: the keyword names of the `dict(...)` it hands over as data, in
+source order; `none` = the payload is not written as a dict call (a forwarded `notification.data`) -/
+structure PostSite where
+  cls : String
+  method : String
+  name : NameRef
+  keys : Option (List String)
+deriving DecidableEq, Repr, Inhabited
+
 structure Tables where
   classes : List ClassInfo
   skeletons : List MethodSkel
+  sites : List PostSite := []
 deriving Repr, Inhabited
 
 def Tables.cls (t : Tables) (n : String) : Option ClassInfo := t.classes.find? (fun c => c.name = n)
